@@ -82,5 +82,5 @@ def events(model_id, variant, obs):
         if any(abs(v) >= 2.0e9 * q for v in vals):      # would not fit TLC's 32-bit integers: skipped, visibly
             ev.append({"e": "Obs", "key": "%s|%s|UNQUANTISABLE" % (model_id, name), "var": variant, "vals": [0]})
             continue
-        ev.append({"e": "Obs", "key": "%s|%s" % (model_id, name), "var": variant, "vals": [int(math.floor(v / q)) for v in vals]})
+        ev.append({"e": "Obs", "key": "%s|%s" % (model_id, name), "var": variant, "vals": [max(-2000000000, min(2000000000, int(math.floor(v / q)))) for v in vals]})      # TLC integers are 32-bit: saturate, never wrap
     return ev
